@@ -140,4 +140,17 @@ theorem confFallback_is_refConfigKeys :
       [(.queueCap, confFallback.queueCap), (.maxWait, confFallback.maxWait), (.maxBuf, confFallback.maxBuf),
        (.zipMin, confFallback.zipMin)] := by decide
 
+/-- `ApplyConfig` given a semantics: for each (setting, key, fall-back) row, in source order,
+    `this.<setting> = conf.GetInt(key, fall-back)` -/
+def applyKeys (keys : List (Field × String × Int)) (lookup : String → Option Int) (s : Settings) : Settings :=
+  keys.foldl (fun acc row => acc.set row.1 ((lookup row.2.1).getD row.2.2)) s
+
+/-- the configuration the model's `Conf` stands for -/
+def Conf.lookup (c : Conf) (key : String) : Option Int :=
+  if key = "logsink_queue_size" then c.queueSize else if key = "max_wait_time" then c.maxWait
+  else if key = "max_buffer_size" then c.maxBuf else if key = "logsink_zip_min_size" then c.zipMin else none
+
+theorem applyKeys_ref_is_resolve (c : Conf) (s : Settings) : applyKeys refConfigKeys c.lookup s = c.resolve := by
+  simp [applyKeys, refConfigKeys, Conf.lookup, Settings.set, Conf.resolve, confFallback]
+
 end ZipSender
